@@ -35,7 +35,7 @@ def run(prog, tier, res):
                        "strictly-increasing termination shape of the best-cluster search, and the [-pi, pi] range clause (C16.R1).")
     res.trusted = ["IEEE semantics of the guarded operations", "C16.R1 (imported as a premise)"]
     R1 = res.rule("C14.R1", "closest_t: every division by the pitch h is dominated by the not-taken edge of `|h| < eps` (eps > 0)", 2)
-    R2 = res.rule("C14.R2", "initial guess: circle fit only after the exact-collinearity rejection; division by theta only when theta != 0", 3)
+    R2 = res.rule("C14.R2", "initial guess: circle fit only after the exact-collinearity rejection, whose cross product is taken at the point the circle formula uses as origin; division by theta only when theta != 0", 4)
     R3 = res.rule("C14.R3", "min cluster size passed by the public wrapper (13) >= the fit's assert (3)", 1)
     R4 = res.rule("C14.R4", "Track::try_from(Cluster) can only fail through the fit's single `?` (NoInitialParameters)", 1)
     R5 = res.rule("C14.R5", "t_inner / t_outer / vertex t are in [-pi, pi] or NaN (C16.R1-R3)", 1)
@@ -121,6 +121,90 @@ def run(prog, tier, res):
         res.hit(R2)
     else:
         res.violate(R2, THREE, "collinearity", "three_template_points can return Ok without the exact-collinearity test `(x3-x1)*(y2-y1) == (x2-x1)*(y3-y1)` failing", tb.where())
+    # the guard must be the *same* determinant the circle formula divides by: w = (z3 - z1)/(z2 - z1) and the division
+    # by w - conj(w) = 2i Im(w) is by zero exactly when the cross product taken at z1 vanishes in floating point; a
+    # cross product taken at another point is algebraically equal but rounds differently
+    def point_of(xy_call, which):
+        x = strip(xy_call)
+        if x[0] == "call" and x[1].endswith("SpacePoint::" + which) and len(x[2]) == 1:
+            return tsy.name(x[2][0])
+        return None
+    piv_guard = None
+    for okbb, okt in oks:
+        for (d, rel, vals) in tan.atoms_at(okbb):
+            c = as_cmp(d, True)
+            if not (c and c[0] == "Eq" and truth_of(rel, vals) is False and tsy.is_float_cmp(d)):
+                continue
+            sides = []
+            for sd in (strip(c[1]), strip(c[2])):
+                if sd[0] == "call" and short(sd[1]) == "Mul::mul" and len(sd[2]) == 2:
+                    f1, f2 = strip(sd[2][0]), strip(sd[2][1])
+                    if all(f[0] == "call" and short(f[1]) == "Sub::sub" and len(f[2]) == 2 for f in (f1, f2)):
+                        sides.append(((point_of(f1[2][0], "x"), point_of(f1[2][1], "x")), (point_of(f2[2][0], "y"), point_of(f2[2][1], "y"))))
+            if len(sides) == 2 and all(n is not None for sd in sides for pr in sd for n in pr):
+                (ax, px1), (by, py1) = sides[0]
+                (bx, px2), (ay, py2) = sides[1]
+                if px1 == py1 == px2 == py2 and ax == ay and bx == by and len({ax, bx, px1}) == 3:
+                    piv_guard = px1
+    ok_names = []
+    if len(oks) == 1:
+        v = strip(oks[0][1][2][0])
+        if v[0] == "aggr" and v[1] == "tuple":
+            ok_names = [tsy.name(x) for x in v[2]]
+    cb_ = prog.body(R + "track_fitting::circle_through_three_points")
+    can_ = analysis(prog, cb_)
+    res.functions.add(cb_.path)
+    piv_param = None
+    divs = [(bb, t) for bb, t in cb_.calls() if short(cname(t)) == "Div::div"]
+
+    def cplx_param(x):
+        x = strip(x)
+        if x[0] == "call" and short(x[1]).endswith("::new") and len(x[2]) == 2:
+            ps = []
+            for comp in x[2]:
+                y = strip(comp)
+                while y[0] == "call" and len(y[2]) == 1:
+                    y = strip(y[2][0])
+                if y[0] == "field" and strip(y[1])[0] == "param":
+                    ps.append((strip(y[1])[1], y[2]))
+            if len(ps) == 2 and ps[0][0] == ps[1][0] and (ps[0][1], ps[1][1]) == (0, 1):
+                return ps[0][0]
+        return None
+    w_term = None
+    for bb, t in divs:
+        a0, a1 = strip(can_.terms.operand(t["args"][0])), strip(can_.terms.operand(t["args"][1]))
+        if all(x[0] == "call" and short(x[1]) == "Sub::sub" and len(x[2]) == 2 for x in (a0, a1)):
+            p0, p1_ = cplx_param(a0[2][1]), cplx_param(a1[2][1])
+            if p0 is not None and p0 == p1_ and cplx_param(a0[2][0]) not in (None, p0) and cplx_param(a1[2][0]) not in (None, p0):
+                piv_param = p0
+                w_term = can_.terms.call_term(t, bb)
+    conj_div = False
+    for bb, t in divs:
+        den = strip(can_.terms.operand(t["args"][1]))
+        if w_term is not None and den[0] == "call" and short(den[1]) == "Sub::sub" and len(den[2]) == 2:
+            cj = strip(den[2][1])
+            if same(strip(den[2][0]), w_term) and cj[0] == "call" and short(cj[1]).endswith("::conj") and same(strip(cj[2][0]), w_term):
+                conj_div = True
+    # which returned point is passed as the pivot parameter
+    piv_pos = None
+    if circ and piv_param is not None and 1 <= piv_param <= len(circ[0][1]["args"]):
+        a = strip(fan.terms.operand(circ[0][1]["args"][piv_param - 1]))
+        if a[0] == "aggr" and a[1] == "tuple" and len(a[2]) == 2:
+            poss = set()
+            for comp, which in zip(a[2], ("x", "y")):
+                y = strip(comp)
+                if y[0] == "call" and y[1].endswith("SpacePoint::" + which) and len(y[2]) == 1:
+                    z = strip(y[2][0])
+                    if z[0] == "field" and any(q[0] == "call" and q[1] == THREE for q in walk(z)):
+                        poss.add(z[2])
+            if len(poss) == 1:
+                piv_pos = poss.pop()
+    if piv_guard is not None and piv_param is not None and conj_div and piv_pos is not None and piv_pos < len(ok_names) and ok_names[piv_pos] == piv_guard:
+        res.hit(R2)
+    else:
+        res.violate(R2, THREE, "collinearity-pivot", "the exact-collinearity test is not the determinant the circle formula divides by: the guard takes its cross product at `%s`, "
+                    "circle_through_three_points divides by Im((z3 - z1)/(z2 - z1)) with z1 = returned point #%s (%s)" % (
+                        (piv_guard or "?")[:60], piv_pos, (ok_names[piv_pos][:60] if piv_pos is not None and piv_pos < len(ok_names) else "?")), tb.where())
     # division by theta
     theta_div = 0
     for bb, t in fb.calls():
